@@ -250,6 +250,12 @@ func (e *Engine) mergeVal(g string, a, b Val, sa, sb *State, what string) Val {
 					e.mergeOut.cells[c] = e.mergeVal(g, ca, cb, sa, sb, what)
 					return PtrV{Nil: nilT, Cell: c, Elem: x.Elem, Name: c.Name}
 				}
+				fallthrough
+			default:
+				// pointers to two different objects whose contents cannot be merged: keep only the nil-ness;
+				// a later dereference makes the function undecided (see materialise)
+				e.nfresh++
+				return PtrV{Nil: nilT, Elem: x.Elem, Name: fmt.Sprintf("mergedptr!%d", e.nfresh)}
 			}
 		}
 	case FuncV:
